@@ -268,7 +268,7 @@ package eventlogger
 //@   ensures C05+C07/failure-is-noop: err != nil ==> nodesUnchanged(b) && ev_n == old(ev_n) && (forall u EventType :: old(u in b.graphs) ==> (u in b.graphs) && b.graphs[u] == old(b.graphs[u])) && (forall g *graph, k PipelineID :: old(allocated(g)) ==> (k in view(g.roots.m)) == old(k in view(g.roots.m)) && view(g.roots.m)[k] == old(view(g.roots.m)[k])) && (forall u EventType :: (u in b.graphs) && !old(u in b.graphs) ==> (forall k PipelineID :: !(k in view(b.graphs[u].roots.m))))
 //@   ensures C07/stored-with-policy: err == nil ==> (def.EventType in b.graphs) && (def.PipelineID in view(b.graphs[def.EventType].roots.m)) && validPolicy(view(b.graphs[def.EventType].roots.m)[def.PipelineID].registrationPolicy) && (len(opt) == 0 ==> view(b.graphs[def.EventType].roots.m)[def.PipelineID].registrationPolicy == AllowOverwrite)
 //@   ensures C01+C07/stored-chain-is-definition: err == nil ==> isChain(view(b.graphs[def.EventType].roots.m)[def.PipelineID].rootNode) && view(b.graphs[def.EventType].roots.m)[def.PipelineID].rootNode.clen == len(def.NodeIDs) && (forall k int :: 0 <= k && k < len(def.NodeIDs) ==> view(b.graphs[def.EventType].roots.m)[def.PipelineID].rootNode.chain[k].nodeID == def.NodeIDs[k] && view(b.graphs[def.EventType].roots.m)[def.PipelineID].rootNode.chain[k].node == old(b.nodes[def.NodeIDs[k]].node))
-//@   ensures C07/single-atomic-swap: err == nil ==> ev_n == old(ev_n) + 1 && ev_kind(old(ev_n)) == "mapstore" && ev_a(old(ev_n), 0) == ref(b.graphs[def.EventType].roots.m) && ev_a(old(ev_n), 1) == def.PipelineID
+//@   ensures C01+C07/single-atomic-swap: err == nil ==> ev_n == old(ev_n) + 1 && ev_kind(old(ev_n)) == "mapstore" && ev_a(old(ev_n), 0) == ref(b.graphs[def.EventType].roots.m) && ev_a(old(ev_n), 1) == def.PipelineID
 //@   ensures C01+C07/other-pipelines-untouched: err == nil ==> onlychanged("syncmap", b.graphs[def.EventType].roots.m) && (forall k PipelineID :: k != def.PipelineID ==> (k in view(b.graphs[def.EventType].roots.m)) == (old(def.EventType in b.graphs) && old(k in view(b.graphs[def.EventType].roots.m))) && (old(def.EventType in b.graphs) ==> view(b.graphs[def.EventType].roots.m)[k] == old(view(b.graphs[def.EventType].roots.m)[k])))
 //@   ensures C07/existing-graphs-kept: forall u EventType :: old(u in b.graphs) ==> (u in b.graphs) && b.graphs[u] == old(b.graphs[u])
 //@   ensures C06+C07/node-table-kept: (forall i NodeID :: (i in b.nodes) == old(i in b.nodes) && b.nodes[i] == old(b.nodes[i])) && (forall u *nodeUsage :: old(allocated(u)) ==> u.node == old(u.node) && u.registrationPolicy == old(u.registrationPolicy))
@@ -602,7 +602,7 @@ package eventlogger
 //@   ensures C15/no-rotation-unless-a-limit-is-due: !old(sizeLimitReached(fs)) && fs.MaxDuration <= 0 ==> err == nil && ev_n == old(ev_n) && fs.f == old(fs.f) && fs.BytesWritten == old(fs.BytesWritten) && fs.LastCreated == old(fs.LastCreated)
 //@   ensures C15/rotates-when-the-size-limit-is-reached: !specialPath(fs) && old(sizeLimitReached(fs)) ==> ev_n > old(ev_n)
 //@   ensures C08+C15/rotation-closes-the-active-file-first: ev_n > old(ev_n) ==> ev_kind(old(ev_n)) == "sys:close" && ev_a(old(ev_n), 0) == old(fs.f) && (ev_a(old(ev_n), 5) != 0 ==> err != nil && ev_n == old(ev_n) + 1 && fs.f == old(fs.f) && fs.BytesWritten == old(fs.BytesWritten))
-//@   ensures C15/timestamp-only-mode-renames-the-plain-file-before-pruning: ev_n > old(ev_n) && ev_a(old(ev_n), 5) == 0 && fs.TimestampOnlyOnRotate ==> ev_n >= old(ev_n) + 2 && ev_kind(old(ev_n) + 1) == "sys:rename" && ev_a(old(ev_n) + 1, 0) == uf("filepath.Join2", fs.Path, fs.FileName) && (exists ts int :: ev_a(old(ev_n) + 1, 1) == uf("filepath.Join2", fs.Path, sprintf1(filePattern(fs), uf("strconv.FormatInt", uf("time.UnixNano", ts), 10)))) && (ev_a(old(ev_n) + 1, 5) != 0 ==> err != nil && ev_n == old(ev_n) + 2)
+//@   ensures C08+C15/timestamp-only-mode-renames-the-plain-file-before-pruning: ev_n > old(ev_n) && ev_a(old(ev_n), 5) == 0 && fs.TimestampOnlyOnRotate ==> ev_n >= old(ev_n) + 2 && ev_kind(old(ev_n) + 1) == "sys:rename" && ev_a(old(ev_n) + 1, 0) == uf("filepath.Join2", fs.Path, fs.FileName) && (exists ts int :: ev_a(old(ev_n) + 1, 1) == uf("filepath.Join2", fs.Path, sprintf1(filePattern(fs), uf("strconv.FormatInt", uf("time.UnixNano", ts), 10)))) && (ev_a(old(ev_n) + 1, 5) != 0 ==> err != nil && ev_n == old(ev_n) + 2)
 //@   ensures C15/other-modes-never-rename: !fs.TimestampOnlyOnRotate ==> (forall i int :: old(ev_n) <= i && i < ev_n ==> ev_kind(i) != "sys:rename")
 //@   ensures C08/only-these-effects: forall i int :: old(ev_n) <= i && i < ev_n ==> ev_kind(i) == "sys:close" || ev_kind(i) == "sys:rename" || ev_kind(i) == "sys:glob" || ev_kind(i) == "sys:remove" || ev_kind(i) == "sys:mkdirall" || ev_kind(i) == "sys:openfile" || ev_kind(i) == "sys:chmod"
 //@   ensures C15/success-leaves-an-open-file: err == nil && !specialPath(fs) ==> fs.f != nil && (ev_n > old(ev_n) ==> fs.BytesWritten == 0)
